@@ -63,6 +63,10 @@ def pairs(d):
     instS = {"a": 1.5, "b": {"c": None}, "r": [], "z": {}}
     E1 = dict(member({"type": "integer"}, {"type": "string"}, {"type": "string"}, instS), share=True)
     E2 = dict(member({"type": "string"}, {"type": "integer"}, {"type": "integer"}, instS), share=True)
+    # each member has its own resolver, but both resolvers were constructed from ONE store object (a URIDict, as another
+    # resolver's .store is): a store argument is copied, never adopted
+    SA = dict(member({"type": "integer"}, {"type": "null"}, {"type": "null"}, {"a": "s", "z": 1.5, "r": 1}), shared_store=True)
+    SB = dict(member({"type": "string"}, {"type": "null"}, {"type": "null"}, {"a": 1, "z": "q", "b": {"c": 2}}), shared_store=True)
     # the same remote URL retrieved through each member's OWN handler, which serves that member's own document
     def remote_member(doc, inst):
         return dict(name="own-handler", schema={"properties": {"r": {"$ref": scen.REMOTE + "#/definitions/x"}, "q": {"type": "null"}}},
@@ -74,7 +78,7 @@ def pairs(d):
     M1 = meta_member("meta-override-1", {"type": "string"}, {"m": 3, "n": "x"})
     M2 = meta_member("meta-override-2", {"type": "null"}, {"m": "x", "n": None})
     M3 = meta_member("meta-default", None, {"m": "x", "n": -1})
-    return [[A, B], [B, A], [A3, B3, C], [rec, rec2], [A, rec], [D1, D2], [M1, M3], [M3, M2], [M2, M1], [E1, E2], [H1, H2], [HF, H2], [H1, HF]]
+    return [[A, B], [B, A], [A3, B3, C], [rec, rec2], [A, rec], [D1, D2], [M1, M3], [M3, M2], [M2, M1], [E1, E2], [H1, H2], [HF, H2], [H1, HF], [SA, SB]]
 
 
 def instances_for(grp):
@@ -113,6 +117,9 @@ def checker_for(js, kind):
     return fc
 
 
+_SHARED = {}
+
+
 class MeetingHandler(object):
     """a retrieval handler serving this member's own documents.  When a meeting point is set (threaded rounds), every
     retrieval waits there briefly for the other members' retrievals: the handlers of all members are then inside their
@@ -141,10 +148,17 @@ def build(d, m, real=False):
     R = tracing.make_tracing_resolver_class()
     schema = copy.deepcopy(m["schema"])
     kw = {}
+    store = copy.deepcopy(m["store"])
+    if m.get("shared_store"):
+        if d not in _SHARED:
+            from jsonschema._utils import URIDict
+            _SHARED[d] = URIDict()
+            _SHARED[d].update(copy.deepcopy(m["store"]))
+        store = _SHARED[d]
     if m.get("remote"):
         h = MeetingHandler(copy.deepcopy(m["remote"]), fails=bool(m.get("handler_fails")))
         kw["handlers"] = {"http": h, "https": h}
-    res = R.from_schema(schema, id_of=cls.ID_OF, store=copy.deepcopy(m["store"]), **kw)
+    res = R.from_schema(schema, id_of=cls.ID_OF, store=store, **kw)
     if m.get("remote"):
         res.meeting_handler = h
     return cls(schema, resolver=res, format_checker=checker_for(js, m.get("fmt"))), res
